@@ -37,6 +37,8 @@ let parse_op (t : string) : op =
   | 'e' -> OEstablishBegin (a 0)
   | 's' -> OResumeBegin (a 0)
   | 'D' -> OFinishFull N0   (* placeholder: the slot name is resolved by [run_s] *)
+  | 'b' -> OSubscribeDue (a 0)
+  | 'r' -> OSubscribeRemove (a 0, a 1)
   | _ -> failwith ("bad op " ^ t)
 
 let status_str = function
